@@ -94,7 +94,7 @@ func (g *dgen) node0(depth int, xml bool) *dnode {
 	case 5:
 		return &dnode{kind: "ilist", name: g.fname(), typ: []string{"int32", "uint32", "int64"}[g.r.Intn(3)]}
 	case 6:
-		return &dnode{kind: "smap", name: g.fname(), ktyp: []string{"uint32", "int32", "string"}[g.r.Intn(3)], typ: []string{"int32", "string", "uint32"}[g.r.Intn(3)]}
+		return &dnode{kind: "smap", name: g.fname(), ktyp: []string{"uint32", "int32", "string"}[g.r.Intn(3)], typ: []string{"int32", "string", "uint32", "enum<.FruitType>"}[g.r.Intn(4)]}
 	case 7:
 		return &dnode{kind: "istruct", name: g.fname(), tname: g.tname()}
 	case 8, 9:
